@@ -26,10 +26,24 @@ func regWithDeviationVar(c *Ctx, stream, format string, credAlg, attAlg int, v i
 			uv := "required"
 			s.AuthSelUV = &uv
 		case "alg.notAllowed":
+			// pubKeyCredParams without the credential's algorithm: omitted, empty, a random subset of the others, all the others
 			s.Algs = nil
-			for _, a := range allAlgs {
-				if a != credAlg && r.Bool() {
-					s.Algs = append(s.Algs, a)
+			switch variant(r, v, []int{0, 1, 2, 2, 3}) {
+			case 0:
+				s.Algs = nil
+			case 1:
+				s.Algs = []int{}
+			case 2:
+				for _, a := range allAlgs {
+					if a != credAlg && r.Bool() {
+						s.Algs = append(s.Algs, a)
+					}
+				}
+			case 3:
+				for _, a := range allAlgs {
+					if a != credAlg {
+						s.Algs = append(s.Algs, a)
+					}
 				}
 			}
 		case "fmt.notAllowed":
@@ -100,7 +114,7 @@ func init() {
 		}},
 		Stream{"reg.deviationVariants", func(c *Ctx) {
 			// every variant of the deviations that have several (origins, challenges incl. non-canonical base64url spellings, types, RP ID hashes, raw ids)
-			for _, dv := range []string{"cd.type", "cd.challenge", "cd.origin", "ad.rpIdHash", "rawId.other"} {
+			for _, dv := range []string{"cd.type", "cd.challenge", "cd.origin", "ad.rpIdHash", "rawId.other", "alg.notAllowed"} {
 				for v := 0; v < maxVariants; v++ {
 					for _, f := range []string{"none", "packed-self", pick(c.R, allFormats[2:])} {
 						regWithDeviationVar(c, "reg.var."+dv, f, pick(c.R, credAlgsFor(f)), pick(c.R, attAlgsFor(f)), v, dv)
